@@ -710,8 +710,10 @@ class BaseDiscretizer(BaseEstimator, TransformerMixin):
                         feature_summary.update({"content": raw_labels_per_values[feature][value]})
                         summaries += [feature_summary]
 
-        # adding nans for quantitative features (when nan has been grouped)
-        for feature in self.quantitative_features:
+        # adding nans for requested quantitative features (when nan has been grouped)
+        for feature in [
+            feature for feature in requested_features if feature in self.quantitative_features
+        ]:
             # initiating feature summary (no value/label)
             feature_summary = {"feature": feature, "dtype": self.input_dtypes[feature]}
             # if there are nans -> if already added it will be dropped afterwards (unique content)
